@@ -333,6 +333,136 @@ Proof.
     apply Hloc. intros l Hl. apply Hv. exists r. split; assumption.
 Qed.
 
+(* ------------------------------------------------------------------ projection: the other party might as well not exist *)
+
+(* h is what party 2 would have built alone: it agrees with g on everything party 2 can reach, and has no extra objects *)
+Definition sim (g h : heap) (R : list loc) : Prop :=
+  (forall x, acc g R x -> h x = g x) /\ (forall x, g x = None -> h x = None).
+
+Lemma sim_reach : forall g h R, sim g h R -> forall r x, In r R -> reach g r x -> reach h r x.
+Proof.
+  intros g h R [Hv _] r x Hin H. induction H as [r | r x' nd c H IH Hx' Hc].
+  - apply reach_refl.
+  - specialize (IH Hin). eapply reach_step; [exact IH | | exact Hc].
+    rewrite Hv; [exact Hx' | exists r; split; assumption].
+Qed.
+
+Lemma sim_acc : forall g h R, sim g h R -> forall x, acc g R x -> acc h R x.
+Proof. intros g h R S x [r [Hin H]]. exists r. split; [assumption | eapply sim_reach; eauto]. Qed.
+
+(* a step of party 2 in the shared heap is a step of party 2 in its solo heap, and the two stay in agreement *)
+Lemma sim_own_step : forall g h R g' R',
+  sim g h R -> step (g, R) (g', R') -> exists h', step (h, R) (h', R') /\ sim g' h' R'.
+Proof.
+  intros g h R g' R' S Hst. assert (S' := S). destruct S' as [Hv Hd].
+  inversion Hst as [g0 R0 l nd nd' Hacc Hl Hmut Hmut' Hk Hch | g0 R0 l nd' Hfresh Hch]; subst.
+  - exists (upd h l nd'). split.
+    + eapply step_write; eauto.
+      * eapply sim_acc; eauto.
+      * rewrite Hv by assumption. exact Hl.
+      * intros c Hc. eapply sim_acc; eauto.
+    + split.
+      * intros x [r [Hin H]].
+        destruct (upd_reach_sub g R' l nd' (fun c Hc => or_introl (Hch c Hc)) r x H (or_introl Hin)) as [-> | A].
+        -- rewrite !upd_same. reflexivity.
+        -- destruct (Pos.eq_dec x l) as [-> | N]; [rewrite !upd_same; reflexivity | ].
+           rewrite !upd_other by assumption. apply Hv. assumption.
+      * intros x Hx. destruct (Pos.eq_dec x l) as [-> | N]; [rewrite upd_same in Hx; discriminate | ].
+        rewrite upd_other in Hx by assumption. rewrite upd_other by assumption. apply Hd. assumption.
+  - exists (upd h l nd'). split.
+    + eapply step_alloc; eauto.
+      intros c Hc. destruct (Hch c Hc) as [A | ->]; [left; eapply sim_acc; eauto | right; reflexivity].
+    + split.
+      * intros x [r [Hin H]].
+        assert (Hr : In r R \/ r = l) by (destruct Hin as [<- | Hin]; [right; reflexivity | left; assumption]).
+        destruct (upd_reach_sub g R l nd' Hch r x H Hr) as [-> | A].
+        -- rewrite !upd_same. reflexivity.
+        -- destruct (Pos.eq_dec x l) as [-> | N]; [rewrite !upd_same; reflexivity | ].
+           rewrite !upd_other by assumption. apply Hv. assumption.
+      * intros x Hx. destruct (Pos.eq_dec x l) as [-> | N]; [rewrite upd_same in Hx; discriminate | ].
+        rewrite upd_other in Hx by assumption. rewrite upd_other by assumption. apply Hd. assumption.
+Qed.
+
+(* a step of the other party does not disturb the agreement *)
+Lemma sim_other_step : forall g h R Ro g' Ro',
+  inv g Ro R -> sim g h R -> step (g, Ro) (g', Ro') -> sim g' h R.
+Proof.
+  intros g h R Ro g' Ro' Hinv [Hv Hd] Hst.
+  destruct (step_inv g Ro R g' Ro' Hinv Hst) as (_ & Hval & Hacc).
+  split.
+  - intros x Hx. apply Hacc in Hx. rewrite Hval by assumption. apply Hv. assumption.
+  - intros x Hx. apply Hd.
+    inversion Hst as [g0 R0 l nd nd' A Hl Hmut Hmut' Hk Hch | g0 R0 l nd' Hfresh Hch]; subst;
+      (destruct (Pos.eq_dec x l) as [-> | N]; [rewrite upd_same in Hx; discriminate | rewrite upd_other in Hx by assumption; exact Hx]).
+Qed.
+
+Lemma steps_snoc : forall s s' s'', steps s s' -> step s' s'' -> steps s s''.
+Proof.
+  intros s s' s'' H. induction H; intros Hst.
+  - eapply steps_cons; [exact Hst | apply steps_nil].
+  - eapply steps_cons; [eassumption | apply IHsteps; assumption].
+Qed.
+
+Lemma steps_trans : forall s s' s'', steps s s' -> steps s' s'' -> steps s s''.
+Proof.
+  intros s s' s'' H. induction H; intros H2; [assumption | ].
+  eapply steps_cons; [eassumption | apply IHsteps; assumption].
+Qed.
+
+Lemma asteps_project : forall s s', asteps s s' ->
+  forall h, inv_state s -> sim (fst (fst s)) h (snd s) ->
+  exists h', steps (h, snd s) (h', snd s') /\ sim (fst (fst s')) h' (snd s').
+Proof.
+  intros s s' H. induction H as [s | s s1 s2 Hst Hsts IH]; intros h Hinv S.
+  - exists h. split; [apply steps_nil | assumption].
+  - assert (Hinv1 := astep_inv _ _ Hinv Hst).
+    inversion Hst as [g R1 R2 g' R1' H1 | g R1 R2 g' R2' H2]; subst; cbn [fst snd inv_state] in *.
+    + destruct (IH h Hinv1 (sim_other_step g h R2 R1 g' R1' Hinv S H1)) as [h' [Hs' S']].
+      exists h'. split; assumption.
+    + destruct (sim_own_step g h R2 g' R2' S H2) as [h1 [Hs1 S1]].
+      destruct (IH h1 Hinv1 S1) as [h' [Hs' S']].
+      exists h'. split; [eapply steps_cons; eassumption | assumption].
+Qed.
+
+Lemma projection_inv : forall g0 R1 R2 g R1' R2',
+  inv g0 R1 R2 -> asteps (g0, R1, R2) (g, R1', R2') ->
+  exists h, steps (g0, R2) (h, R2') /\
+            (forall x, acc g R2' x -> h x = g x) /\
+            (forall r, In r R2' -> forall T (obs : heap -> loc -> T), local_obs obs -> obs h r = obs g r).
+Proof.
+  intros g0 R1 R2 g R1' R2' Hinv Hs.
+  assert (S0 : sim g0 g0 R2) by (split; intros; [reflexivity | assumption]).
+  destruct (asteps_project _ _ Hs g0 Hinv S0) as [h [Hsteps [Hv Hd]]].
+  cbn [fst snd] in *. exists h. split; [assumption | split; [assumption | ]].
+  intros r Hr T obs Hloc. apply Hloc. intros l Hl. apply Hv. exists r. split; assumption.
+Qed.
+
+Definition swap (s : state) : state := match s with (g, R1, R2) => (g, R2, R1) end.
+
+Lemma asteps_swap : forall s s', asteps s s' -> asteps (swap s) (swap s').
+Proof.
+  intros s s' H. induction H as [s | s s1 s2 Hst Hsts IH]; [apply asteps_nil | ].
+  eapply asteps_cons; [ | exact IH].
+  inversion Hst; subst; cbn [swap]; [apply astep_2 | apply astep_1]; assumption.
+Qed.
+
+(* Whatever the holder of the other root does in between, each party ends up with exactly the heap (as far as it can
+   see it) that it would have built running ALONE from the initial heap. *)
+Theorem checker_sound_projection : forall m r1 r2,
+  no_shared_mutable m r1 r2 = true ->
+  forall g R1 R2, asteps (sem m, [r1], [r2]) (g, R1, R2) ->
+  (exists h, steps (sem m, [r2]) (h, R2) /\
+             (forall x, acc g R2 x -> h x = g x) /\
+             (forall r, In r R2 -> forall T (obs : heap -> loc -> T), local_obs obs -> obs h r = obs g r)) /\
+  (exists h, steps (sem m, [r1]) (h, R1) /\
+             (forall x, acc g R1 x -> h x = g x) /\
+             (forall r, In r R1 -> forall T (obs : heap -> loc -> T), local_obs obs -> obs h r = obs g r)).
+Proof.
+  intros m r1 r2 H g R1 R2 Hs. split.
+  - exact (projection_inv _ _ _ _ _ _ (checker_inv m r1 r2 H) Hs).
+  - exact (projection_inv _ _ _ _ _ _ (inv_sym _ _ _ (checker_inv m r1 r2 H)) (asteps_swap _ _ Hs)).
+Qed.
+
 (* the guard is necessary: a shared mutable object is written through *)
 Definition ex_shared : hmap :=
   of_list [(1%positive, mkNode 1 true [] [3%positive]);
